@@ -378,6 +378,26 @@ func run(c *engine.Ctx) {
 			}
 		}
 	}
+	// C: statement headers of every length: a keyword and an argument of 1..70 bytes whose last
+	// character is ASCII, two-byte, three-byte or four-byte, followed by the ways a block can go wrong
+	// (error texts quote a bounded context of the statement)
+	for _, last := range []string{"z", "\u00fc", "\u20ac", "\U0001d11e"} {
+		for n := 0; n <= 70; n++ {
+			arg := strings.Repeat("a", n) + last
+			for ti, tail := range []string{" { value 1;; }", " { value 1; ", " {", " { } }", ";;", " { \"", "\" { value 1; }"} {
+				for qi, q := range []string{"", "\""} {
+					text := "module m{namespace u;prefix p;typedef t{type enumeration{enum " + q + arg + q + tail
+					id := fmt.Sprintf("header:%q:%d:%d:%d", last, n, ti, qi)
+					if !c.Owns(id) || !c.Case(id) {
+						continue
+					}
+					c.Add("states", 1)
+					c.Add("transitions", 1)
+					report(text)
+				}
+			}
+		}
+	}
 	c.Sample(map[string]any{"text": corpus[1][:40], "kind": "corpus prefix"})
 }
 
